@@ -1250,7 +1250,7 @@ func main() {
 	h.sum = vh.NewSummary("C06", o,
 		"logical tables / line sets run through csv, csv2, fixed-length and fixedlength2 via Transform.Read + RawRecord, plus the csv encoder against encoding/csv; "+
 			"non-trivial = (delimited) at least one field needs quoting, (fixed-length) at least one multi-byte rune lies before a column boundary; distinct by (schema, input)")
-	h.cw = vh.NewCaseWriter(o, "C06", "Base.Utf8 Base.Tree Model.Csv Model.Fixed Model.Delim.\nFrom Coq Require Import Uint63", "c06case", "check_case")
+	h.cw = vh.NewCaseWriter(o, "C06", "Base.Utf8 Base.Tree Model.Csv Model.Fixed Model.Delim Model.DelimPack.\nFrom Coq Require Import Uint63", "c06case", "check_case")
 	h.cw.PerFile = 200
 	if o.Replay != "" {
 		// a replay file written by bin/check has the case under "case"; corpus files too
